@@ -323,6 +323,83 @@ def run_zipf(n_cases, seed, work):
     return None, len(l1)
 
 
+def epoch_script(n_hist, seed, k):
+    """random sequential histories over k-1 workers (the main thread owns one id): every history ends with all guards destroyed"""
+    rng = random.Random(seed)
+    ops, start = [], [0]
+    for h in range(n_hist):
+        alive = [False] * (k - 1)
+        guard = [False] * (k - 1)
+        style = rng.randrange(4)
+        for _ in range(rng.randrange(15, 90)):
+            r = rng.randrange(100)
+            w = rng.randrange(k - 1)
+            if r < 45:
+                n = 1
+                if style >= 2 and rng.randrange(3) == 0:
+                    n = 1 + rng.randrange(600)
+                if style == 1 and rng.randrange(2) == 0:
+                    n = 200 + rng.randrange(120)
+                ops.append(('F', 0, n))
+            elif r < 68:
+                if not guard[w]:
+                    alive[w] = True
+                    guard[w] = True
+                    ops.append(('L' if rng.randrange(3) == 0 else 'G', w, 0))
+                elif rng.randrange(3) == 0:
+                    ops.append(('A', w, 0))
+            elif r < 88:
+                if guard[w] and (style != 1 or rng.randrange(3) == 0):
+                    guard[w] = False
+                    ops.append(('D', w, 0))
+            else:
+                if alive[w] and not guard[w]:
+                    alive[w] = False
+                    ops.append(('X', w, 0))
+        for w in range(k - 1):
+            if guard[w]:
+                ops.append(('D', w, 0))
+        ops.append(('F', 0, 1))
+        ops.append(('F', 0, 1))
+        start.append(len(ops))
+    return ops, start
+
+
+def run_epoch(n_hist, seed, work):
+    k = 4
+    src_tu = os.path.join(ROOT, 'harness', 'epoch_tu.cpp')
+    defs = ['DBGROUP_MAX_THREAD_NUM=7919'] + [d for d in DEFS if not d.startswith('DBGROUP_MAX_THREAD_NUM')]   # as in the proofs: the capacity stays symbolic
+    text, meta = cxx2c.extract(src_tu, [os.path.join(REPO, 'include'), REPO], defs, ['kMaxThreadNum=7919'], [])
+    ops, start = epoch_script(n_hist, seed, k)
+    inc = '#define FID_K %d\n#define FID_HISTORIES %d\ntypedef struct { char kind; int w; int n; } fid_op;\n' % (k, n_hist)
+    inc += 'static const fid_op fid_ops[] = {%s};\n' % ', '.join("{'%s', %d, %d}" % o for o in ops)
+    inc += 'static const int fid_start[] = {%s};\n' % ', '.join(str(x) for x in start)
+    open(os.path.join(work, 'fid_epoch_script.inc'), 'w').write(inc)
+    open(os.path.join(work, 'fid_epoch_extracted.c'), 'w').write(text)
+    cexe, pexe = os.path.join(work, 'fid_epoch_c.exe'), os.path.join(work, 'fid_epoch_cpp.exe')
+    rc, o, e = sh(['gcc', '-O1', '-w', '-DVERIF_NATIVE', '-DVERIF_NATIVE_EPOCH', '-I' + os.path.join(ROOT, 'stubs'), '-I' + work,
+                   os.path.join(ROOT, 'harness', 'fid_epoch_driver.c'), '-o', cexe])
+    if rc:
+        return 'C build failed: ' + e[-1200:], 0
+    srcs = [os.path.join(REPO, 'src/thread', f) for f in ('epoch_manager.cpp', 'epoch_guard.cpp', 'id_manager.cpp', 'component/epoch.cpp')]
+    rc, o, e = sh(['g++', '-std=c++20', '-O1', '-w', '-fno-access-control', '-I' + os.path.join(REPO, 'include'), '-I' + work] +
+                  ['-D' + d for d in DEFS if not d.startswith('DBGROUP_MAX_THREAD_NUM')] + ['-DDBGROUP_MAX_THREAD_NUM=%d' % k,
+                   os.path.join(ROOT, 'harness', 'fid_epoch_driver.cpp')] + srcs + ['-o', pexe, '-pthread'])
+    if rc:
+        return 'C++ build failed: ' + e[-1200:], 0
+    rc1, o1, e1 = sh(['timeout', '120', cexe])
+    rc2, o2, e2 = sh(['timeout', '120', pexe])
+    if rc1 or rc2:
+        return 'driver failed rc=%d/%d: %s' % (rc1, rc2, (o1[-200:] + e1[-200:] + e2[-200:])), 0
+    l1, l2 = o1.split('\n'), o2.split('\n')
+    for i, (a, b) in enumerate(zip(l1, l2)):
+        if a != b:
+            return 'trace differs at line %d: extracted "%s" vs real "%s"' % (i + 1, a[:200], b[:200]), i
+    if len(l1) != len(l2):
+        return 'trace lengths differ', 0
+    return None, len(l1)
+
+
 def check(component, tier, seed, work):
     """returns (error or None, number of compared observations)"""
     os.makedirs(work, exist_ok=True)
@@ -332,6 +409,8 @@ def check(component, tier, seed, work):
             return run_lock(component, 40 if quick else 300, seed, work)
         if component == 'zipf':
             return run_zipf(20 if quick else 750, seed, work)
+        if component in ('epoch', 'epochb'):
+            return run_epoch(25 if quick else 600, seed, work)
     except cxx2c.ExtractError as ex:
         return 'extraction failed: %s' % ex, 0
     return None, 0
